@@ -126,13 +126,27 @@ func genLexCmd(in *bufio.Scanner, out *bufio.Writer, args []string) error {
 				}
 			}
 		}
+		// a multi-byte letter starting at every offset of an otherwise ASCII identifier (a rune straddling the end of a
+		// fixed-size buffer of ANY size up to 70 bytes, and around 128 / 256), 2-, 3- and 4-byte letters
+		for _, l := range []string{"é", "日", "𝐀", "ɐ"} {
+			ps := []int{}
+			for p := 1; p <= 70; p++ {
+				ps = append(ps, p)
+			}
+			ps = append(ps, 125, 126, 127, 128, 253, 254, 255, 256, 509, 510, 511, 1021, 1022, 1023)
+			for _, p := range ps {
+				fmt.Fprintln(out, hx([]byte("SELECT "+strings.Repeat("a", p)+l+"b FROM t")))
+			}
+		}
 	case "bodies":
 		// every quoted / comment context with awkward bodies (line breaks, multi-byte text on the last line, the
 		// context's own delimiters and statement separators inside), followed by more tokens on the same line
 		ctxs := []struct{ open, close string }{{"'", "'"}, {"\"", "\""}, {"`", "`"}, {"$$", "$$"}, {"$t$", "$t$"}, {"$doc$", "$doc$"}, {"/*", "*/"}, {"/* /*", "*/ */"},
 			// dollar-quote tags are identifiers: non-ASCII letters, digits and '_' in the tag, with and without a matching closer
 			{"$é$", "$é$"}, {"$тег$", "$тег$"}, {"$t_1$", "$t_1$"}, {"$日$", "$日$"}, {"$é$", "$e$"}, {"$aé$", "$aé$"}, {"$é$", ""},
-			{"-- ", "\n"}, {"# ", "\n"}, {"{", "}"}, {"x'", "'"}, {"‘", "’"}, {"“", "”"}, {"", ""}}
+			{"-- ", "\n"}, {"# ", "\n"}, {"{", "}"}, {"x'", "'"}, {"‘", "’"}, {"“", "”"}, {"", ""},
+			// curly quotes in the other three pairings (which quote closes which is the lexer's rule, whatever it is)
+			{"’", "’"}, {"‘", "‘"}, {"’", "‘"}, {"”", "”"}, {"“", "“"}, {"”", "“"}}
 		bodies := []string{"", "a", "\n", "a\nb", "é", "a\nб", "вторая строка", "first line\nвторая строка", "日本\n語", "\r\n", "a\r\nb", ";", "a;\nb;\n", ";\n", "a;b", "$", "$x", "a$b$c",
 			"tmp/*/2024", "/*", "*/", "*", "/", "--", "#", "'", "''", "\\'", "\"", "\\\"", "`", "``", "\\`", "\\", "\\\\", "\\n", "\\x41", "\\x", "\x00", "\xff", "\t", "{", "}", "{p:UInt8}", "0x1f", "1e5"}
 		for _, c := range ctxs {
